@@ -11,6 +11,10 @@ pub tracked struct Dir {
     pub ghost io_failed: bool,
 }
 
+/// WHICH files of its directory a `Dir` value stands for (= the class the bound is stated about). Each listing function lists one
+/// class: `get_files` every regular file, `search_files` the regular files whose name matches its pattern.
+pub enum DirKind { AllRegularFiles, FilesMatchingAPattern, FilesOfOneRollingLog }
+
 impl Dir {
     pub open spec fn names(self) -> Set<PathBuf> { self.files.dom() }
     pub open spec fn count(self) -> nat { self.files.dom().len() }
